@@ -684,7 +684,7 @@ def stepwise(chk):
         else:
             lookup_table(chk, rule)
     # ---- Stepwise.run: one rule per step, write iff not None -------------------------------
-    run = prog.method(STEPWISE, "run")
+    run = util.flat(prog, prog.method(STEPWISE, "run"))
     name = run.qual
     loop = util.the_loop(run)
     if loop is None:
